@@ -63,6 +63,12 @@ func (tds *Conn) VerifChannelIds() []int {
 	return ids
 }
 
+// VerifCancel cancels the context of the connection, ending the
+// reader goroutine without closing channels or transport.
+func (tds *Conn) VerifCancel() {
+	tds.ctxCancel()
+}
+
 // VerifErrCh returns the error queue of the connection.
 func (tds *Conn) VerifErrCh() chan error {
 	return tds.errCh
